@@ -92,9 +92,11 @@ def rechunker(
                 t1 = time.time()
                 load_time_seconds.append(t1 - t0)
                 n_bytes += data.nbytes
-                pbar.postfix = f"{(n_bytes / 1e6) / (t1 - pbar.start_t):.1f} MB/s"
-                pbar.n += 1
-                pbar.display()
+                if not pbar.disable:
+                    # A disabled bar has no start_t and cannot be displayed
+                    pbar.postfix = f"{(n_bytes / 1e6) / (t1 - pbar.start_t):.1f} MB/s"
+                    pbar.n += 1
+                    pbar.display()
             except StopIteration:
                 pbar.close()
                 return
